@@ -19,6 +19,11 @@ CHECKS = {
             "share, within one chip, of exactly the side pots he is among the best of; zero sum). MCPots checks the precise model "
             "Pots/Settlement for all vectors in scope; the real packages are fed every vector of the scope in every insertion order "
             "(<= 4 players) plus seeded realistic vectors; every GameClosed state of real play is judged by the same predicates."),
+    "C03": ("spec/RankTrace.tla: the evaluator's complete function table (all hands, both decks, both tables) against HandRank.RefKey",
+            "Exhaustive over inputs: every five-card hand of both decks under both ranking tables is evaluated by the real "
+            "combination.CalculatePower (several card orders), reduced to classes; TLC checks one result per class, the category name and "
+            "order-isomorphism with the TLA+ reference order RefKey along the score-sorted table; MCRank checks the lemma Score~RefKey on the model.",
+            ),
     "C04": ("spec/HoldemProps.tla C04_* incl. refusal probes of every seat x action x amount",
             "Turn order and refusals: first-to-act, clockwise walk, single offered seat, and state-unchanged refusal of every "
             "out-of-turn / unoffered / wrong-phase call, probed on JSON clones at every state of probe runs."),
@@ -32,6 +37,10 @@ CHECKS = {
             "Published pots: strictly increasing levels, totals from all players, eligible = non-folded who reached the level listed with "
             "the per-pot amount, strictly shrinking eligible sets, totals sum to all chips; exhaustive small-scope vectors in every "
             "insertion order and every RoundClosed/GameClosed state of real play."),
+    "C10": ("spec/HoldemProps.tla C10_* with HandRank.Admissible/RefKey on every street of real hands (constructed and random decks)",
+            "Each published hand is five own cards, admissible (exactly the required hole cards), unbeaten by any admissible selection under "
+            "RefKey, with category/strength equal to the evaluator re-run on those cards, stable between streets, and the showdown pays by the "
+            "published strengths. Sampled (constructed category-boundary decks + random + TLC scripts), not exhaustive over C(52,7)."),
     "C11": ("spec/HoldemProps.tla C11_offer/C11_effect, every offered action forked at every decision point",
             "Offer table read from the chips on the table (not the engine's bookkeeping) and effects of each action; each offered action "
             "and size class exercised on JSON clones at each reached decision point."),
@@ -51,7 +60,8 @@ def main():
     src = subprocess.run(["git", "-C", "/repo", "log", "--format=%H %s"], stdout=subprocess.PIPE, text=True).stdout.splitlines()
     hook_commits = [l.split()[0] for l in src if l.split(" ", 1)[1].startswith("verif:")]
     checks = []
-    for pid, (tech, text) in sorted(CHECKS.items()):
+    for pid, tt in sorted(CHECKS.items()):
+        tech, text = tt[0], tt[1]
         checks.append({
             "property_id": pid,
             "quick_cmd": "bin/check %s --tier quick" % pid,
